@@ -344,6 +344,29 @@ func (x *run) await(done <-chan struct{}, base map[int64]bool) (verdict string, 
 	}
 }
 
+// drain gives goroutines of the finished program (argument readers, isolated-context watchers)
+// the chance to end before the next case starts, so that a late crash is attributed to the
+// case that caused it. Bounded number of rounds; nothing is decided here.
+func drain(base map[int64]bool) {
+	for i := 0; i < 200; i++ {
+		left := false
+		for id, g := range dumpAll() {
+			if base[id] {
+				continue
+			}
+			for _, f := range g.frames {
+				if strings.Contains(f, goatFrag) {
+					left = true
+				}
+			}
+		}
+		if !left {
+			return
+		}
+		time.Sleep(100 * time.Microsecond)
+	}
+}
+
 // ---- driver (a): PipRunner.Run called directly from several goroutines ------------------------
 
 type directResult struct {
@@ -455,6 +478,7 @@ func (x *run) runDirect(s *stack) (res *directResult, inconclusive string) {
 			res.tasks[name] = tk
 		}
 	}
+	drain(base)
 	return res, ""
 }
 
@@ -509,5 +533,6 @@ func (x *run) runScript() (res *directResult, inconclusive string) {
 			res.tasks[name] = tk
 		}
 	}
+	drain(base)
 	return res, ""
 }
